@@ -150,3 +150,12 @@ Theorem C20_modelled_functions_are_the_source's :
   gen_src_pretty_cut = src_pretty_cut.
 Proof. exact (conj pin_nb_reduce (conj pin_reduce_1d (conj pin_nb_dot (conj pin_bools_to_categorical pin_pretty_cut)))). Qed.
 Print Assumptions C20_modelled_functions_are_the_source's.
+
+(* the bit-exact transcription of nansum / nanmean / nanvar in primitive floats (Model/NanopsFloat.v) that C20's stream runs
+   against the real functions *)
+From Coq Require Import PrimFloat.
+From GL Require Import Model.NanopsFloat.
+Example C20_float_model_example :
+  same_floatN (nanvar_f [100000001; 100000002; nan; 100000003]%float 2 0) 0x1.5555555555555p-1%float = true /\
+  same_floatN (nansum_f [1e16; 1; nan; -1e16]%float 3) 0%float = true.
+Proof. split; vm_compute; reflexivity. Qed.
